@@ -160,12 +160,63 @@ func buildConfig(c *Chooser) (cfg ymap, mustReject []string) {
 		if c.Pick(2, "cgf.hostIPv4") == 1 {
 			delete(g, "hostIPv4")
 		}
+		switch c.Pick(5, "cgf.ports") {
+		case 1:
+			g["port"] = 0
+		case 2:
+			g["listenPort"] = 65536
+		case 3:
+			g["passiveTransferPortRange"] = ymap{"start": 2130, "end": 2123}
+		case 4:
+			delete(g, "cdrFilePath")
+			delete(g, "listenPort")
+		}
 		conf["cgf"] = g
 	} else {
 		mustReject = append(mustReject, "missing-section:cgf")
 	}
-	conf["volumeLimit"] = 50000
-	conf["volumeThresholdRate"] = 0.8
+	// optional numeric settings (used in arithmetic by the first online request): whatever validation lets through must work
+	switch c.Pick(5, "volumeLimit") {
+	case 0:
+		conf["volumeLimit"] = 50000
+	case 1:
+	case 2:
+		conf["volumeLimit"] = 0
+		conf["volumeLimitPDU"] = 0
+	case 3:
+		conf["volumeLimit"] = -1
+		conf["volumeLimitPDU"] = -1
+	case 4:
+		conf["volumeLimit"] = 2147483647
+		conf["volumeLimitPDU"] = 2147483647
+	}
+	switch c.Pick(6, "volumeThresholdRate") {
+	case 0:
+		conf["volumeThresholdRate"] = 0.8
+	case 1:
+	case 2:
+		conf["volumeThresholdRate"] = 0
+	case 3:
+		conf["volumeThresholdRate"] = 1.5
+	case 4:
+		conf["volumeThresholdRate"] = -0.5
+	case 5:
+		conf["volumeThresholdRate"] = 1e30
+	}
+	switch c.Pick(5, "quotaValidityTime") {
+	case 1:
+		conf["quotaValidityTime"] = 0
+	case 2:
+		conf["quotaValidityTime"] = -1
+	case 3:
+		conf["quotaValidityTime"] = 2147483647
+		conf["reserveQuotaRatio"] = -5
+	case 4:
+		conf["reserveQuotaRatio"] = 0
+	}
+	if c.Pick(2, "nrfCertPem") == 1 {
+		conf["nrfCertPem"] = "/nonexistent/nrf.pem" // (OAuth2 is not required by the NRF in this world)
+	}
 	cfg = ymap{}
 	if c.Pick(2, "info") == 0 {
 		cfg["info"] = ymap{"version": pick(c, "info.version", "1.0.3", "1.0.2", ""), "description": "CHF"}
